@@ -235,6 +235,10 @@ class FockBackend(BaseFock):
             if len(modes) != len(set(modes)):
                 raise ValueError("The specified modes cannot be duplicated.")
 
+            # the requested modes are mode indices (as for every other backend method);
+            # convert them to positions in the state tensor
+            modes = self._remap_modes(modes)
+
             num_modes = len(rho.shape) // 2
             if len(modes) > num_modes:
                 raise ValueError(
